@@ -77,6 +77,17 @@ static bool ref_b64_valid(const std::string& s, bool urlsafe) {
   }
   return true;
 }
+// a text of valid shape whose last character before the padding carries non-zero bits that belong to no byte ("MR==", "MTF="): no
+// encoder produces it. The statement demands success for encoder output (the round trip) and rejection for the three listed defects;
+// whether such a text is decoded (dropping the bits, as /repo and Python do) or refused as non-canonical is left open
+static bool ref_b64_noncanonical(const std::string& s, bool urlsafe) {
+  if (!ref_b64_valid(s, urlsafe) || s.empty()) return false;
+  size_t n = s.size();
+  size_t pad = (s[n - 1] == '=') + (n >= 2 && s[n - 2] == '=' && s[n - 1] == '=');
+  if (pad == 0) return false;
+  int v = ref_b64_value(static_cast<unsigned char>(s[n - 1 - pad]), urlsafe);
+  return (v & (pad == 1 ? 0x3 : 0xF)) != 0;
+}
 // decode of a valid text: bit stream of the non-padding characters, whole bytes only
 static std::string ref_b64_decode(const std::string& s, bool urlsafe) {
   std::string out;
@@ -183,6 +194,10 @@ static inline const char* b64_decode_check(const std::string& text, uint64_t kin
     return nullptr;
   }
   if (threw) {
+    if (ref_b64_noncanonical(text, urlsafe) && right_type) {
+      verif::ctx().cls("b64_decode:refuses a non-canonical text (unused bits set)");
+      return nullptr;
+    }
     if (detail) *detail = cat("base64_decode('", text, "') threw ", tname, " (", what, ") for a valid text");
     return "rejects-valid";
   }
@@ -396,7 +411,9 @@ static void run_esc_quotes(const Case& c) {
         ok = false;
       }
     }
-    VCHECK(ok && back == data, "quotes-roundtrip", "'", out, "' does not decode back to ", hex(data));
+    // (the statement promises of the quote escaper only "no raw quote or non-printable byte"; which escape spelling it uses - \\xHH,
+    // \\n, \\t ... - and hence whether this two-form reader decodes it, is counted, not judged)
+    ctx().cls((ok && back == data) ? "esc_quotes:decoded back by the \\\" / \\xHH reader" : "esc_quotes:uses other escape spellings");
   }
   if (nt) ctx().nontrivial_case();
 }
@@ -445,9 +462,9 @@ static bool esc_quotes_holds(const std::string& data) {
     } else if (i + 3 < out.size() && out[i + 1] == 'x' && hexval(out[i + 2]) >= 0 && hexval(out[i + 3]) >= 0) {
       back += static_cast<char>(hexval(out[i + 2]) * 16 + hexval(out[i + 3]));
       i += 3;
-    } else return false;
+    } else has_backslash = true; // another escape spelling: the round trip through this two-form reader is not judged
   }
-  return has_backslash || back == data;
+  return true;
 }
 
 // ---------------------------------------------------------------- netloc
@@ -566,6 +583,7 @@ static void placed_clauses(const char* where, const char* p, size_t n, const std
   } catch (const std::invalid_argument&) {
     threw = true;
   }
+  if (valid && threw && ref_b64_noncanonical(data, urlsafe)) return; // (refusing a non-canonical text is left open, see ref_b64_noncanonical)
   VCHECK(threw == !valid, cat(valid ? "placed:rejects-valid:" : "placed:accepts-invalid:", where), "base64_decode(ptr, ", n, ") of the range '", data, "' ", threw ? "threw" : "returned", " [", where, "]");
   if (valid) VCHECK(dec == ref_b64_decode(data, urlsafe), cat("placed:decode-value:", where), "base64_decode(ptr, ", n, ") of the range '", data, "' = ", hex(dec, 80), " [", where, "]");
 }
@@ -696,6 +714,7 @@ static void run_ambient(const Case& c) {
     same("base64_encode", amb.enc[k], ref_b64_encode(data, k == 2));
     same("base64_decode", amb.dec[k], data);
     bool valid = ref_b64_valid(data, k == 2);
+    if (valid && amb.text_threw[k] == 1 && ref_b64_noncanonical(data, k == 2)) continue; // refusing a non-canonical text is left open
     VCHECK(amb.text_threw[k] == (valid ? 0 : 1), cat("ambient:base64_decode-strictness:", mname), "base64_decode of the text ", hex(data, 120), " (", valid ? "valid" : "invalid", ") ",
         amb.text_threw[k] == 0 ? "returned" : amb.text_threw[k] == 1 ? "threw invalid_argument" : "threw another exception", " with ambient state ", mname);
     if (valid) same("base64_decode", amb.text_dec[k], ref_b64_decode(data, k == 2));
